@@ -145,10 +145,11 @@ def multi(fn, seed, tier, reps):
 
 # ---------------------------------------------------------------- running
 
-def run_scripts(run, scripts, tag, slow=1, timeout=900, kind="broker"):
-    """drive the scripts on the real broker (sharded), returns path of the concatenated trace file + crash info"""
+def run_scripts(run, scripts, tag, slow=1, timeout=900, kind="broker", race=False):
+    """drive the scripts on the real broker (sharded), returns path of the concatenated trace file + crash info;
+    race=True: the driver built with the Go race detector (its reports are left in run.race_reports)"""
     wd = run.wd
-    drive = lib.build_harness()
+    drive = lib.build_harness(race=race)
     sfile = os.path.join(wd, "%s.scripts.ndjson" % tag)
     with open(sfile, "w") as f:
         for s in scripts:
@@ -166,6 +167,8 @@ def run_scripts(run, scripts, tag, slow=1, timeout=900, kind="broker"):
         for p, out in procs:
             try:
                 so, se = p.communicate(timeout=timeout)
+                if race and "DATA RACE" in se:
+                    run.race_reports = getattr(run, "race_reports", []) + [se[:20000]]
             except subprocess.TimeoutExpired:
                 p.kill()
                 so, se = p.communicate()
